@@ -1,5 +1,6 @@
 """C06 — see DESIGN.md section 4. Proof obligations: Properties/C06.v. Tie: K5 on every case, under this property's observation."""
 from . import core
+from .c01 import sig_certificate
 
 PROP_FILE = 'Properties/C06.v'
 THEOREMS = ['C06_block_comment_text', 'C06_line_comment_text', 'C06_comment_total', 'C06_markup_comment_in_place',
@@ -7,4 +8,4 @@ THEOREMS = ['C06_block_comment_text', 'C06_line_comment_text', 'C06_comment_tota
 
 
 def run(tier, seed, replay=None):
-    return core.run_property('C06', tier, seed, replay, 'c06', PROP_FILE, THEOREMS, 'a comment was lost, duplicated, reordered, reworded or moved across a word', ['comment order/neighbourhood over all converters is decided by the oracle and K5 on every case; proved: the comment converter (text preserved up to leading blanks, never fails) and in-place emission in markup'])
+    return core.run_property('C06', tier, seed, replay, 'c06', PROP_FILE, THEOREMS, 'a comment was lost, duplicated, reordered, reworded or moved across a word', ['comment order/neighbourhood over all converters is decided by the oracle and K5 on every case; proved: the comment converter (text preserved up to leading blanks, never fails) and in-place emission in markup'], post=sig_certificate)
